@@ -215,3 +215,21 @@ func Seed() uint64 {
 	}
 	return s
 }
+
+// WriteReplay stores a replay file for a (schedule-dependent) failure found inside a rapid
+// property and announces it to the driver. The caller fails the test afterwards.
+func WriteReplay(test, name string, details any) string {
+	violations.Add(1)
+	dir := os.Getenv("VERIF_REPLAY_DIR")
+	if dir == "" {
+		return ""
+	}
+	os.MkdirAll(dir, 0o755)
+	path := fmt.Sprintf("%s/%s-%x.json", dir, name, hash64(fmt.Sprint(details))+uint64(time.Now().UnixNano()))
+	b, _ := json.MarshalIndent(map[string]any{"test": test, "only_case": path, "details": details}, "", " ")
+	if err := os.WriteFile(path, b, 0o644); err != nil {
+		return ""
+	}
+	fmt.Printf("VERIF-REPLAY-FILE: %s\n", path)
+	return path
+}
